@@ -392,8 +392,21 @@ pub fn ros_bases(quick: bool) -> Vec<RosCase> {
 
 pub fn run_c17(ctx: &mut Ctx) -> (String, Value, Vec<String>) {
     crate::util::silence_panics();
-    let ub = uni_bases(ctx.quick());
-    let rb = ros_bases(ctx.quick());
+    // every base system also under tight divergence limits: a spurious Err of the base
+    // that a hardening turns into Ok is a violation, too
+    let mut ub = vec![];
+    for c in uni_bases(ctx.quick()) {
+        for lim in [LIMIT, 31, 14, 7] {
+            let mut x = c.clone();
+            x.limit = lim;
+            ub.push(x);
+        }
+    }
+    let mut rb = vec![];
+    for c in ros_bases(ctx.quick()) {
+        rb.push(crate::props::c07::set_limit(&c, 30));
+        rb.push(c);
+    }
     let pairs = AtomicU64::new(0);
     let nontriv = AtomicU64::new(0);
     let bad = Mutex::new(Vec::<(String, String, Value)>::new());
@@ -462,7 +475,10 @@ pub fn run_c17(ctx: &mut Ctx) -> (String, Value, Vec<String>) {
         }
         if let Outcome::Ok(a) = base {
             for dl in [1u64, 50] {
-                let h = crate::props::c07::set_limit(c, 120 + dl);
+                let cur = match c {
+                    RosCase::EventSource { limit, .. } | RosCase::Timer { limit, .. } | RosCase::Pp { limit, .. } | RosCase::Chain { limit, .. } | RosCase::Sub { limit, .. } => *limit,
+                };
+                let h = crate::props::c07::set_limit(c, cur + dl);
                 pairs.fetch_add(1, Ordering::Relaxed);
                 if catch(|| run_ros(&h)).ok() != Some(Outcome::Ok(a)) {
                     bad.lock().unwrap().push((format!("{}#ok-changes-with-limit", crate::props::c07::name(c)), format!("Ok({a}) changed when the limit was raised: {:?}", c), json!({"ros_base": c, "ros_hard": h, "label": "limit"})));
@@ -546,19 +562,19 @@ pub fn run_c19(ctx: &mut Ctx) -> (String, Value, Vec<String>) {
             for bb in [0u64, 1, 3] {
                 let mk = |ana: Ana, last: u64, bb: u64| UniCase { ana, tasks: vec![tsa(&a.0, a.1, 0, 1, 1), tsa(&b.0, b.1, 0, last, 1)], tua: 1, blocking: bb, limit };
                 if bb == 0 {
-                    eq_pair(&bad, "FP limited-preemptive(last=1, no blocking) vs fully preemptive", &mk(Ana::FpLp, 1, 0), &mk(Ana::FpP, 1, 0), &n, &nt);
+                    eq_pair(&bad, "fp-lp(last=1,no-blocking)==fp-p#results-differ", &mk(Ana::FpLp, 1, 0), &mk(Ana::FpP, 1, 0), &n, &nt);
                 }
-                eq_pair(&bad, "FP limited-preemptive(last=WCET) vs non-preemptive", &mk(Ana::FpLp, b.1, bb), &mk(Ana::FpNp, 1, bb), &n, &nt);
-                eq_pair(&bad, "FP floating vs limited-preemptive(last=1)", &mk(Ana::FpFl, 1, bb), &mk(Ana::FpLp, 1, bb), &n, &nt);
+                eq_pair(&bad, "fp-lp(last=wcet)==fp-np#results-differ", &mk(Ana::FpLp, b.1, bb), &mk(Ana::FpNp, 1, bb), &n, &nt);
+                eq_pair(&bad, "fp-fl==fp-lp(last=1)#results-differ", &mk(Ana::FpFl, 1, bb), &mk(Ana::FpLp, 1, bb), &n, &nt);
             }
             for d0 in &dls {
                 for d1 in &dls {
                     let mk = |ana: Ana, last: u64, np0: u64| UniCase { ana, tasks: vec![tsa(&a.0, a.1, *d0, 1, np0), tsa(&b.0, b.1, *d1, last, 1)], tua: 1, blocking: 0, limit };
-                    eq_pair(&bad, "EDF limited-preemptive(all segments 1) vs fully preemptive", &mk(Ana::EdfLp, 1, 1), &mk(Ana::EdfP, 1, 1), &n, &nt);
-                    eq_pair(&bad, "EDF floating(all segments 1) vs fully preemptive", &mk(Ana::EdfFl, 1, 1), &mk(Ana::EdfP, 1, 1), &n, &nt);
-                    eq_pair(&bad, "EDF limited-preemptive(segments = WCET) vs non-preemptive", &mk(Ana::EdfLp, b.1, a.1), &mk(Ana::EdfNp, 1, a.1), &n, &nt);
+                    eq_pair(&bad, "edf-lp(segments=1)==edf-p#results-differ", &mk(Ana::EdfLp, 1, 1), &mk(Ana::EdfP, 1, 1), &n, &nt);
+                    eq_pair(&bad, "edf-fl(segments=1)==edf-p#results-differ", &mk(Ana::EdfFl, 1, 1), &mk(Ana::EdfP, 1, 1), &n, &nt);
+                    eq_pair(&bad, "edf-lp(segments=wcet)==edf-np#results-differ", &mk(Ana::EdfLp, b.1, a.1), &mk(Ana::EdfNp, 1, a.1), &n, &nt);
                     for np0 in 1..=a.1 {
-                        eq_pair(&bad, "EDF floating vs limited-preemptive(last=1)", &mk(Ana::EdfFl, 1, np0), &mk(Ana::EdfLp, 1, np0), &n, &nt);
+                        eq_pair(&bad, "edf-fl==edf-lp(last=1)#results-differ", &mk(Ana::EdfFl, 1, np0), &mk(Ana::EdfLp, 1, np0), &n, &nt);
                     }
                 }
             }
@@ -576,7 +592,7 @@ pub fn run_c19(ctx: &mut Ctx) -> (String, Value, Vec<String>) {
                     if f.ok() != edf_max {
                         let mut b_ = bad.lock().unwrap();
                         if b_.len() < 200 {
-                            b_.push(("max NP-EDF (equal deadlines) vs FIFO".into(), format!("equal deadlines {dl}: NP-EDF bounds {:?}/{:?}, FIFO {:?}; tasks {:?}", e0, e1, f, tasks), json!({"tasks": tasks, "limit": limit})));
+                            b_.push(("max-edf-np(equal-deadlines)==fifo#results-differ".into(), format!("equal deadlines {dl}: NP-EDF bounds {:?}/{:?}, FIFO {:?}; tasks {:?}", e0, e1, f, tasks), json!({"tasks": tasks, "limit": limit})));
                         }
                     }
                 }
@@ -587,7 +603,7 @@ pub fn run_c19(ctx: &mut Ctx) -> (String, Value, Vec<String>) {
                     if f.ok() != es.ok() {
                         let mut b_ = bad.lock().unwrap();
                         if b_.len() < 200 {
-                            b_.push(("event source vs FIFO on a dedicated processor".into(), format!("event source {:?}, FIFO {:?}; tasks {:?} limit {limit}", es, f, tasks), json!({"tasks": tasks, "limit": limit})));
+                            b_.push(("ros2::rta_event_source(dedicated)==fifo#results-differ".into(), format!("event source {:?}, FIFO {:?}; tasks {:?} limit {limit}", es, f, tasks), json!({"tasks": tasks, "limit": limit})));
                         }
                     }
                 }
@@ -617,7 +633,7 @@ pub fn run_c19(ctx: &mut Ctx) -> (String, Value, Vec<String>) {
                     if !same {
                         let mut b_ = bad.lock().unwrap();
                         if b_.len() < 200 {
-                            b_.push((format!("{}: dedicated vs full-budget reservation", crate::props::c07::name(c)), format!("{:?} on a dedicated processor, {:?} on {:?}; case {:?}", x, y, alt, c), json!({"ros_a": c, "ros_b": h})));
+                            b_.push((format!("{}(dedicated)==(full-budget-reservation)#results-differ", crate::props::c07::name(c)), format!("{:?} on a dedicated processor, {:?} on {:?}; case {:?}", x, y, alt, c), json!({"ros_a": c, "ros_b": h})));
                         }
                     }
                 }
